@@ -140,10 +140,11 @@ func (i *ignore) TeardownStatement(meta *ast.Meta) {
 //	 [STATEMENT]
 //	 [STATEMENT]
 //	 ...
-//	 // trailing comments
-//	}
+//	 // infix comments (the last comments of the block, in front of the closing brace)
+//	} // trailing comments
 //
-// So we need to divide parsing leading and trailing comment by setup and teardown
+// So we need to divide parsing leading and trailing comment by setup and teardown.
+// The infix comments are placed after the last statement so they take effect on teardown.
 func (i *ignore) SetupBlockStatement(meta *ast.Meta) {
 	for _, c := range meta.Leading {
 		switch ignoreType, rules := parseIgnoreComment(c.String()); ignoreType {
@@ -161,6 +162,16 @@ func (i *ignore) TeardownBlockStatement(meta *ast.Meta) {
 		ignoreType, rules := parseIgnoreComment(c.String())
 		if ignoreType == falcoIgnoreNextLine {
 			unignoreRules(&i.ignoreNextLine, rules)
+		}
+	}
+
+	// A range may start or end at the bottom of the block
+	for _, c := range meta.Infix {
+		switch ignoreType, rules := parseIgnoreComment(c.String()); ignoreType {
+		case falcoIgnoreStart:
+			ignoreRules(&i.ignoreRange, rules)
+		case falcoIgnoreEnd:
+			unignoreRules(&i.ignoreRange, rules)
 		}
 	}
 
